@@ -179,7 +179,7 @@ fn sequences(alphabet: &[&'static str], max: usize, files_only: bool) -> Vec<Vec
 
 const DEEP_NAMES: &[&str] = &[
     "x", "y", ".", "..", "src", "generated", "a.b", "schema.graphql", "...", "caf\u{e9}", "__generated__",
-    "d.ts", "x y", ".hidden",
+    "d.ts", "x y", ".hidden", "..cache", ".generated", ".x.graphql",
 ];
 
 pub fn run(env: &Env) -> i32 {
@@ -305,6 +305,7 @@ fn layout_case(case: &mut Case, base: &Path) -> CaseResult {
     let mut po = ProjectOpts::default();
     // more fragments => longer import chains through the nested library files
     po.doc.max_frags = 6;
+    po.plugins = true;
     po.doc.all_fragments_used = true;
     let gp = gen_project(case, &po);
     let proj = write_project(&gp, base);
@@ -360,7 +361,9 @@ fn layout_case(case: &mut Case, base: &Path) -> CaseResult {
                     for s in v["sources"].as_array().cloned().unwrap_or_default() {
                         let Some(s) = s.as_str() else { continue };
                         let target = norm(&format!("{}/{}", dir_of(&map_path), s));
-                        if !inputs.contains(&target) {
+                        // (`(plugin)`: pseudo source of a plugin's in-memory schema addition; C06 checks that no
+                        // segment refers to it)
+                        if !inputs.contains(&target) && !target.ends_with("/(plugin)") {
                             return Err(Failure::new(
                                 "map-source-lands-elsewhere",
                                 format!("{out}.map lists source {s:?}, which denotes {target} - not an input file"),
